@@ -849,7 +849,7 @@ class ListenerItem(ListenerBase):
             type = SIMPLE_LISTENER
             handler = trait.handler
             if handler is not None:
-                type = type_map.get(handler.default_value_, SIMPLE_LISTENER)
+                type = type_map.get(handler.default_value_type, SIMPLE_LISTENER)
 
             # Add the name and type to the list of traits being registered:
             self.active[object].append((new_trait, type))
